@@ -2,7 +2,7 @@ SPEC = {
     'id': 'C31',
     'harness': 'hC31',
     'coq_dir': 'C31',
-    'claimed': False,
+    'claimed': True,
     'theorems': [
         'C31_spelling', 'C31_spelling_hex', 'C31_spelling_base58_literal', 'C31_base58_accepted_shape', 'C31_base58_any_version_accepted',
         'C31_hex_key_total', 'C31_listed_is_blocked',
